@@ -52,6 +52,12 @@ M = [
     ("c07_batch_size_off_by_one", "C07", "jade/hpc/hpc_submitter.py",
      "elif self.num_jobs >= self._per_node_batch_size:",
      "elif self.num_jobs > self._per_node_batch_size:", 1200),
+    ("c07_cli_batch_size_ignored", "C07", "jade/cli/common.py",
+     "        per_node_batch_size=per_node_batch_size,\n        distributed_submitter=not no_distributed_submitter,",
+     "        per_node_batch_size=SUBMITTER_PARAMS_DEFAULTS[\"per_node_batch_size\"],\n        distributed_submitter=not no_distributed_submitter,", 2400),
+    ("c06_cli_nproc_ignored", "C06", "jade/cli/common.py",
+     "        num_parallel_processes_per_node=num_parallel_processes_per_node,\n        per_node_batch_size",
+     "        num_parallel_processes_per_node=None,\n        per_node_batch_size", 2400),
     ("c07_dryrun_submits", "C07", "jade/hpc/hpc_manager.py",
      "        if dry_run:\n            logger.info(\"Dry run mode enabled. Return without submitting.\")\n            return 0, Status.GOOD\n",
      "        if dry_run and wait:\n            logger.info(\"Dry run mode enabled. Return without submitting.\")\n            return 0, Status.GOOD\n", 1600),
